@@ -326,3 +326,18 @@ M('C08', 'jac3-rev-not-negated', J3F, "    point_plane_core(-s, c, from_rc, para
 M('C08', 'jac3-plane-unsigned', J3F, "    let s = c.scalar_projection(p).signum();\n\n    // The point with relation to the current center of rotation\n    let from_rc = Point3::from(p - params.current_rc());", "    let s = 1.0;\n\n    // The point with relation to the current center of rotation\n    let from_rc = Point3::from(p - params.current_rc());", 'point_plane_jacobian')
 M('C08', 'handler-set-no-compute', 'src/geom3/align3/multi_param.rs', "        self.raw_params.copy_from(x);\n        self.compute();", "        self.raw_params.copy_from(x);", 'ParamHandler::set_param')
 M('C08', 'handler-wrong-slice', 'src/geom3/align3/multi_param.rs', "                let param = self.raw_params.fixed_rows::<6>(p_index * 6);", "                let param = self.raw_params.fixed_rows::<6>(i * 6);", 'ParamHandler::compute')
+
+# ---------------------------------------------------------------- C15
+KDF = 'src/common/kd_tree.rs'
+PDF = 'src/common/poisson_disk.rs'
+SAF = 'src/geom3/mesh/sampling.rs'
+M('C15', 'kd-within-unsquared', KDF, ".within::<SquaredEuclidean>(&point.coords.into(), radius * radius);", ".within::<SquaredEuclidean>(&point.coords.into(), radius);", 'KdTree::within')
+M('C15', 'kd-nearest-no-sqrt', KDF, "            .nearest_n::<SquaredEuclidean>(&point.coords.into(), count);\n        result\n            .iter()\n            .map(|r| (r.item, r.distance.sqrt()))", "            .nearest_n::<SquaredEuclidean>(&point.coords.into(), count);\n        result\n            .iter()\n            .map(|r| (r.item, r.distance))", 'KdTree::nearest:unpack')
+M('C15', 'partial-within-no-remap', KDF, "        let result = self.tree.within(point, radius);\n        result\n            .iter()\n            .map(|(i, d)| (self.index_map[*i], *d))", "        let result = self.tree.within(point, radius);\n        result\n            .iter()\n            .map(|(i, d)| (*i, *d))", 'PartialKdTree::within:remap')
+M('C15', 'partial-nearest-one-no-remap', KDF, "        (self.index_map[i], d)", "        (i, d)", 'PartialKdTree::nearest_one')
+M('C15', 'poisson-push-inner-index', PDF, "        results.push(i);", "        results.push(m);", 'sample_poisson_disk:keep')
+M('C15', 'poisson-mask-ignored', PDF, "        if !mask[m] {\n            continue;\n        }\n", "", 'sample_poisson_disk:keep')
+M('C15', 'poisson-wrong-centre', PDF, "        let within = tree.within(&working_points[m], radius);", "        let within = tree.within(&all_points[m], radius);", 'sample_poisson_disk:mask-neighbours')
+M('C15', 'uniform-weights-not-affine', SAF, "            let b = r1.sqrt() * (1.0 - r2);", "            let b = r1 * (1.0 - r2);", 'weights-sum-to-one')
+M('C15', 'poisson-mesh-radius', SAF, "        let to_take = sample_poisson_disk(&points, &indices, radius);", "        let to_take = sample_poisson_disk(&points, &indices, radius * 0.5);", 'sample_poisson')
+M('C15', 'order-vote-threshold', 'src/geom2/hull.rs', "    if d_sum > 0 {\n        AngleDir::Ccw", "    if d_sum >= 0 {\n        AngleDir::Ccw", 'order-vote')
